@@ -1038,6 +1038,25 @@ func (e *EvalEnv) call(x *ast.CallExpr) (Val, error) {
 			bvCmp("bvule", bvBin("bvadd", SlOff(at.T), SlCap(at.T)), SlOff(bt.T)),
 			bvCmp("bvule", bvBin("bvadd", SlOff(bt.T), SlCap(bt.T)), SlOff(at.T)))
 		return TV{T: d, Typ: types.Typ[types.Bool]}, nil
+	case "nth":
+		// nth(t, k): k-th component of a tuple (results of a multi-valued Go function called in a contract)
+		if len(x.Args) != 2 {
+			return nil, fmt.Errorf("nth(tuple, k)")
+		}
+		tv, err := e.Eval(x.Args[0])
+		if err != nil {
+			return nil, err
+		}
+		tup, ok := tv.(TupleV)
+		lit, ok2 := x.Args[1].(*ast.BasicLit)
+		if !ok || !ok2 {
+			return nil, fmt.Errorf("nth needs a tuple and a literal index")
+		}
+		k, err := strconv.Atoi(lit.Value)
+		if err != nil || k < 0 || k >= len(tup) {
+			return nil, fmt.Errorf("nth: index out of range")
+		}
+		return tup[k], nil
 	case "samestart":
 		// samestart(s, t): the two slices start at the same element of the same backing array and have the same capacity
 		if len(x.Args) != 2 {
